@@ -334,3 +334,60 @@ pub fn run_family(ctl: &mut Ctl, fam: &str) -> usize {
     }
     n
 }
+
+/// C12 end to end: the decision actually taken by `dispose_general_node` for a child whose
+/// youngest stamp has a known true age, at every alignment of the epoch counter.
+/// Returns JSON rows `{fn:"decide", depth, ne, cur, imm, minage, maxage}`.
+pub fn decide_rows(ctl: &mut Ctl) -> Vec<String> {
+    let mut rows = Vec::new();
+    for res in 0..16 {
+        for a3 in [0usize, 1, 4, 8, 9, 10, 11, 12] {
+            for j in 0..=(3 + a3) {
+                ctl.advance_to_residue(res);
+                ctl.reset(&format!("dir:decide:{}:{}:{}", res, a3, j));
+                let first = ctl.out.len();
+                // X with three owners: link P.next, Rc in t1 (slot 0), Rc in t0 (dropped with P)
+                ctl.run(0, Op::New { dst: 0, next: RcArg::Null(0) }); // X
+                ctl.run(0, Op::Clone { src: 0, dst: 1 });
+                ctl.run(0, Op::Give { kind: 'r', slot: 1, to: 1, to_slot: 0 });
+                ctl.run(1, Op::Recv);
+                ctl.run(0, Op::New { dst: 2, next: RcArg::Null(0) }); // P
+                ctl.run(0, Op::Pin);
+                ctl.run(0, Op::Store { loc: Loc::RcField(2, 0), val: RcArg::Slot(0) }); // P.next = X, stamped now
+                ctl.run(0, Op::Unpin);
+                let e_p = circ::verif::global_epoch();
+                ctl.run(0, Op::Drop { slot: 2 }); // P: 1 -> 0 at e_p
+                let total = 3 + a3; // epochs until the collection
+                let mut dropped = false;
+                for step in 0..=total {
+                    if !dropped && total - step == j {
+                        ctl.run(1, Op::Drop { slot: 0 }); // X: 2 -> 1, stamp of true age j at decision time
+                        dropped = true;
+                    }
+                    if step < total {
+                        ctl.advance();
+                    }
+                }
+                let cur = circ::verif::global_epoch();
+                ctl.run(0, Op::Collect);
+                let maxage = cur - e_p;
+                let minage = j.min(maxage);
+                for line in &ctl.out[first..] {
+                    if let Some(p) = line.find("\"decide:1:depth1:") {
+                        let s = &line[p + 1..];
+                        let f: Vec<&str> = s.split('"').next().unwrap().split(':').collect();
+                        let ne: usize = f[3].trim_start_matches("ne").parse().unwrap();
+                        let c: usize = f[4].trim_start_matches("cur").parse().unwrap();
+                        rows.push(format!(
+                            "{{\"fn\":\"decide\",\"depth\":1,\"ne\":{},\"cur\":{},\"imm\":{},\"minage\":{},\"maxage\":{},\"res\":{}}}",
+                            ne, c, (f[5] == "imm") as u8, minage, maxage, res
+                        ));
+                    }
+                }
+                ctl.finisher(true);
+                ctl.out.truncate(first);
+            }
+        }
+    }
+    rows
+}
